@@ -291,7 +291,7 @@ Definition rq_recv (fx : fixes) (O : oracle) (client : bool) (st0 : hstream) (da
       if fin && is_nil buf && (negb (fx_trunc fx) || is_none (s_cur st)) then
         if check_cl st then RVal [EData (s_id st) (s_push st) [] true] st else RErr H3_MESSAGE_ERROR
       else
-        match rq_loop (rq_fuel buf) fx O client fin st buf [] with
+        match rq_loop (rq_fuel buf) fx O client fin (set_buf st []) buf [] with
         | RVal evs st' =>
             if fx_trunc fx && fin && negb (s_blocked st') && (negb (is_nil (s_buf st')) || negb (is_none (s_cur st')))
             then RErr H3_FRAME_ERROR else RVal evs st'
